@@ -223,7 +223,8 @@ func body(sc scenario) func(x *gosim.Exec) {
 					w.outcome[i] += "A"
 					x.Note("c%d %s ACQUIRED", i, c.Kind)
 					w.acquiredBy(i)
-					time.Sleep(sc.Hold) // hold (virtual time)
+					time.Sleep(sc.Hold)                            // hold (virtual time)
+					x.Gate(i, fmt.Sprintf("c%d: begin release", i)) // a harness event the monitor reads: it is a scheduled step
 					w.phase[i] = pReleasing
 					w.api[i] = "Unlock"
 					w.ownGone[i] = false
